@@ -11,23 +11,33 @@ import OllamaVerif.Model.Gguf
 namespace OllamaVerif.Gguf
 open OllamaVerif
 
+/-- decoding an `os.File`: like `decode`, but `lseek` refuses offsets above the file system's limit (EINVAL; 2^63-1 on tmpfs,
+    16 TiB - 4 KiB on ext4 with 4 KiB blocks; measured by the driver).  With backward seeks rejected the largest position a
+    decode asks for is its end offset. -/
+def decodeFile (bs : Bytes) (maxArraySize : Int) (budget : Option Nat) (g : Guards) (maxSeek : Nat) : Except Err Decoded :=
+  match decode bs maxArraySize budget g with
+  | .ok d => if d.endOffset > maxSeek then .error (.invalid "seek beyond the file system's limit") else .ok d
+  | .error e => .error e
+
 /-- `parseFromModel`: every model / projector / adapter layer of the installed model is decoded
     (`ggml.Decode(blob, 0)`), the first failure ends the request -/
-def parseFromModel (blobs : List Bytes) (budget : Option Nat) (g : Guards) : Except Err (List Decoded) :=
-  blobs.mapM (fun b => decode b 0 budget g)
+def parseFromModel (blobs : List Bytes) (budget : Option Nat) (g : Guards) (maxSeek : Nat := two63 - 1) :
+    Except Err (List Decoded) :=
+  blobs.mapM (fun b => decodeFile b 0 budget g maxSeek)
 
 /-- `POST /api/create {"from": m}`: `parseFromModel`, then `createModel` reads every decoded layer through the typed
     accessors (Architecture, FileType, …; `createAccessors`) -/
-def createFrom (blobs : List Bytes) (budget : Option Nat := none) (g : Guards := Guards.tree) : Except Err Unit := do
-  let ds ← parseFromModel blobs budget g
+def createFrom (blobs : List Bytes) (budget : Option Nat := none) (g : Guards := Guards.tree) (maxSeek : Nat := two63 - 1) :
+    Except Err Unit := do
+  let ds ← parseFromModel blobs budget g maxSeek
   let _ ← ds.mapM (fun d => createAccessors g d.kvs)
   pure ()
 
 /-- `Model.Capabilities()`: decode with the default array limit; a decoding ERROR is logged and tolerated ("couldn't
     decode ggml"), on success `<arch>.pooling_type` / `<arch>.vision.block_count` are looked up under the architecture
     the typed accessor returns -/
-def capabilities (blob : Bytes) (budget : Option Nat) (g : Guards) : Except Err (List Nat) :=
-  match decode blob 0 budget g with
+def capabilities (blob : Bytes) (budget : Option Nat) (g : Guards) (maxSeek : Nat := two63 - 1) : Except Err (List Nat) :=
+  match decodeFile blob 0 budget g maxSeek with
   | .ok d => do
     let arch ← kvArchitecture g d.kvs
     let c1 := if (kvLookup d.kvs (arch ++ bytesOf ".pooling_type")).isSome then [1] else [0]   -- embedding / completion
@@ -39,9 +49,10 @@ def capabilities (blob : Bytes) (budget : Option Nat) (g : Guards) : Except Err 
 
 /-- `POST /api/show`: `Capabilities`, then `getModelData` → `llm.LoadModel(path, maxArraySize)` with no array limit when
     `verbose` (-1) and the default otherwise; its error fails the request.  Result: number of tensors listed. -/
-def showModel (blob : Bytes) (verbose : Bool) (budget : Option Nat := none) (g : Guards := Guards.tree) : Except Err Nat := do
-  let _ ← capabilities blob budget g
-  let d ← decode blob (if verbose then -1 else 0) budget g
+def showModel (blob : Bytes) (verbose : Bool) (budget : Option Nat := none) (g : Guards := Guards.tree)
+    (maxSeek : Nat := two63 - 1) : Except Err Nat := do
+  let _ ← capabilities blob budget g maxSeek
+  let d ← decodeFile blob (if verbose then -1 else 0) budget g maxSeek
   pure d.tensors.length
 
 end OllamaVerif.Gguf
